@@ -218,6 +218,27 @@ CLASS_DOCS = {
 }
 
 
+def _tab_docs():
+    """texts whose wants are computed the way the interactive interpreter would show them for the tab-expanded lines"""
+    docs = []
+    for indent in (4, 3, 6, 2):
+        for srcs in (["rec = 'id\tname'", 'len(rec)'], ["row = 'a\tb\tc'", "row.index('b'), row.index('c')"], ["s = '\tend'", 'len(s)', "s.count(' ')"],
+                     ["w = 'x\ty' + 'xx\ty'", "print(len(w), w.index('y'))"]):
+            ns = {}
+            lines = []
+            for src in srcs:
+                raw = ' ' * indent + '>>> ' + src
+                stmt = raw.expandtabs()[indent + 4:]
+                out, exc = repl_output([stmt], ns)
+                lines.append(raw)
+                lines += [' ' * indent + l for l in out.rstrip('\n').split('\n')] if out else []
+            docs.append('\n'.join(lines) + '\n')
+    return docs
+
+
+TAB_DOCS = _tab_docs()
+
+
 def _worker(docs):
     out = []
     for d in docs:
@@ -445,6 +466,18 @@ def run(ctx):
         if problem and nv < 5:
             nv += 1
             ctx.violation('incompatible', {'what': problem, 'doctest': d, 'theorem_or_correspondence': 'C20: standard doctest module as oracle'}, True)
+    # fixed texts in standard syntax whose result depends on how TAB characters behind the common indentation are expanded (both modules
+    # expand tabs over the whole docstring BEFORE anything else): the standard module passes them, so must xdoctest
+    for d in TAB_DOCS:
+        ok, strace, _ = run_std(d)
+        res, xtrace = run_xd(d)
+        ctx.evaluations += 1
+        if ok and res != 'passed' and nv < 8:
+            nv += 1
+            ctx.violation('incompatible', {'what': 'passes under the standard doctest module but xdoctest reports %s (a TAB behind the indentation)' % res, 'doctest': d,
+                          'theorem_or_correspondence': 'C20: standard doctest module as oracle'}, True)
+        elif not ok:
+            ctx.notes.append('a tab text does not pass under the standard module (harness): %r' % d[:60])
     # the recorded classes, re-evaluated on the real code every run
     known = {e['id']: e for e in common.load_known_findings('C20')}
     for cid, d in CLASS_DOCS.items():
